@@ -95,13 +95,14 @@ let tree_string (s : state) : string =
 let oc_string = function
   | Done -> "ok" | Failed -> "err" | OutOfDate -> "ood" | Skipped -> "skip" | Panicked -> "panic"
 
-type pcmd = Base of cmd | Recover of n | Entries of n | DSave
+type pcmd = Base of cmd | Recover of n | Entries of n | DSave | Export of n
 
 let parse_cmd (s : string) : pcmd * string =
   match split_ws s with
   | ["RECOVER"; i] -> (Recover (n_of_string i), "RECOVER " ^ i)
   | ["ENTRIES"; k] -> (Entries (n_of_string k), "ENTRIES " ^ k)
   | ["DSAVE"] -> (DSave, "DSAVE")
+  | ["EXPORT"; i; n] -> (Export (n_of_string i), "EXPORT " ^ i ^ " " ^ n)
   | l -> let (c, str) = (match l with
   | ["SAVE"; i; n] -> (CSave (n_of_string i, n_of_string n), "SAVE " ^ i ^ " " ^ n)
   | ["COMMIT"; i] -> (CCommit (n_of_string i), "COMMIT " ^ i)
@@ -131,7 +132,9 @@ let () =
       let cut = List.fold_left (fun acc kv ->
         if String.length kv > 4 && String.sub kv 0 4 = "cut=" then int_of_string (String.sub kv 4 (String.length kv - 4)) else acc)
         (-1) (List.tl hf) in
-      let disk = List.mem "kind=disk" hf in
+      let reg = List.mem "kind=reg" hf in
+      let disk = List.mem "kind=disk" hf || reg in
+      let restart_fn d = if reg then init_recover_reg d else init_recover d in
       let cmds = List.filter (fun x -> String.trim x <> "") (split_on " ; " body) in
       let s = ref { ds_st = init; ds_smv = N0; ds_smd = N0 } in
       let lr = ref N0 in
@@ -145,6 +148,31 @@ let () =
       (* one command: final state, executed operations, outcome *)
       let exec_cmd (c : pcmd) : dstate * dop list * outcome =
         match c with
+        | Export i ->
+          (* an exported snapshot lives outside the snapshot directory and is not recorded *)
+          (!s, [], (if i = N0 then Skipped else Done))
+        | Recover i when reg ->
+          (* node.processSnapshot (release of the LogReader's snapshot) ; node.recover = Load *)
+          let st = !s.ds_st in
+          let fullfile = (match recorded_file !s with Some d -> full_snap d | None -> false) in
+          if not (nlt !ap i) || st.st_rec <> i || i = N0 || not fullfile then (!s, [], Skipped) else begin
+            let tr1 = if !lr <> N0 && nlt !lr i then (let ((_, tr), _) = do_cmd ord st (CCompact !lr) in tr) else [] in
+            let ops = lift tr1 @ [DSmRecover i] in
+            lr := i; ap := i;
+            (drun !s ops, ops, Done)
+          end
+        | DSave when reg ->
+          (* node.doSave: StateMachine.Save ; Commit ; LogReader.CreateSnapshot (release = Compact) *)
+          let st = !s.ds_st in
+          if !ap = N0 || not (nlt st.st_rec !ap) then (!s, [], Skipped) else begin
+            let ((st1, tr1), oc1) = do_cmd ord st (CSave (!ap, n_of_int 1)) in
+            let ((st2, tr2), oc2) = if oc1 = Done then do_cmd ord st1 (CCommit !ap) else ((st1, []), Failed) in
+            let tr3 = if oc2 = Done && !lr <> N0 && nlt !lr !ap
+                      then (let ((_, tr), _) = do_cmd ord st2 (CCompact !lr) in tr) else [] in
+            if oc2 = Done then lr := !ap;
+            let ops = lift (tr1 @ tr2 @ tr3) in
+            (drun !s ops, ops, oc2)
+          end
         | Recover i ->
           if not disk || not (nlt !ap i) then (!s, [], Skipped) else
           let ((s', tr), oc) = cmd_install !s !lr i in
@@ -163,7 +191,7 @@ let () =
           let s1 = drun !s (lift tr) in
           if disk && c = CCrash && oc = Done then begin
             lr := s1.ds_st.st_rec;
-            let ((s2, tr2), oc2) = init_recover s1 in
+            let ((s2, tr2), oc2) = restart_fn s1 in
             if oc2 <> Done then dead := true;
             ap := (if s1.ds_st.st_rec = N0 then n_of_int 1 else s1.ds_st.st_rec);
             (s2, lift tr @ tr2, oc2)
@@ -197,7 +225,7 @@ let () =
       Printf.printf "%s po -> %s : %s\n" id (if ok then "ok" else "err") (ops_string cs);
       let f =
         if disk && ok then begin
-          let ((r, tr2), oc2) = init_recover (drun c (lift tr)) in
+          let ((r, tr2), oc2) = restart_fn (drun c (lift tr)) in
           let (cs2, _, _) = canon tr2 max_int in
           Printf.printf "%s restart -> %s : %s\n" id (oc_string oc2) (ops_string cs2);
           r.ds_st
